@@ -144,6 +144,9 @@ def gen_cases(rng, tier, ns):
             g.add(n, api, 'rec', ins, indep=indep, nr=rng.range(0, 3), **fl)
         for x in (None, 'bigatt', 'addfix', 'addfixfill', 'addrec'):
             g.add(n, 'enddef', 'rec', ['-'] * n, nr=rng.range(0, 3), x=x, **g.flags())
+        # new variables in fill mode with fewer elements / existing records than ranks (ranks with an empty share of the fill)
+        for x in ('addtinyfill', 'addrecfill'):
+            g.add(n, 'enddef', 'rec', ['-'] * n, nr=rng.range(0, max(0, n - 1)), x=x, **g.flags())
         fl = g.flags()
         ins = ['-'] * n
         if rng.chance(1, 2):
